@@ -375,6 +375,8 @@ def run(F, rep, tier):
     rule_r2(F, rep)
     rule_r2b(F, rep)
     rule_r2c(F, rep)
+    from . import visibility
+    visibility.rule(F, rep, "C07.R4")
     rule_r4(F, rep)
     from . import c01
     c01.rule_r2(F, rep)
